@@ -23,7 +23,8 @@ EXPLANATION = (
     "argument is known not to be contained in the second (a non-dictionary operand, or d1 != d2 on the path): the "
     "equality exit comes before the depth exit; (i) str_to_dict, through which update_recursively takes the string form of "
     "other, treats the explicit value as opaque: once the value has joined the list of keys nothing filters, rebinds or "
-    "tests the elements of that list.  Does not decide the algebraic laws themselves (relations between values).")
+    "tests the elements of that list; (j) the emptiness test on the recursive difference is made only on paths with level != 1 -- one "
+    "level above the depth limit the recursion returns d1[key] itself, whose emptiness says nothing about containment.  Does not decide the algebraic laws themselves (relations between values).")
 RULES = {
     "C07-a": "TRUTHY: no branch on the bare truthiness of a value that may be a leaf; presence is tested with `in`",
     "C07-b": "FRESH: intersection returns a deep copy; only recursive results are stored into it",
@@ -34,6 +35,9 @@ RULES = {
              "in a loop) and every recursive call passes exactly level - 1",
     "C07-h": "CONTAINED FIRST: difference returns d1 itself only on paths where d1 is known not to be contained in d2 "
              "(equal arguments give {} at every level, also level=0)",
+    "C07-j": "DEPTH EXIT IS NOT EMPTINESS: the result of the recursive difference is tested for emptiness only where the recursion "
+             "cannot have stopped at its depth limit (level != 1 on the path): at the limit it returns d1[key] itself, and an empty "
+             "d1[key] that differs from d2[key] belongs to the difference",
     "C07-i": "OPAQUE VALUE: in str_to_dict no key rule (filter, comparison, truth test) is applied to the list once the explicit "
              "value is in it: a value '' / 0 / None is stored as given",
     "C07-g": "NO HIDDEN STATE: the shared helper modules keep no module-level mutable container that a function reads or fills "
@@ -441,6 +445,49 @@ def check_contained_first(ctx):
     ctx.instances_floor("C07-h", n, 2, "paths of difference returning its first argument")
 
 
+def check_depth_exit(ctx):
+    """difference(d1[key], d2[key], level - 1) with level == 1 does not compute a difference: it hands d1[key] back because the
+    values differ and may not be compared deeper.  `if res:` then drops the key when d1[key] is an empty dictionary, although the
+    docstring says "for level 1, if a key is present both in d1 and d2 but has different values, it is included"."""
+    res_ = ctx.res
+    fn = ctx.tree.func(FN, "difference")
+    params = A.func_params(fn)
+    if not ctx.require("level" in params, "C07-j", fn, "difference has no level parameter"):
+        return
+    n = 0
+    seen = set()
+    for p in P.paths_of(fn):
+        # locals holding the result of a recursive call with level - 1
+        rec = {}
+        for i, e in enumerate(p.ev):
+            if e[0] == "stmt" and isinstance(e[1], ast.Assign) and len(e[1].targets) == 1 and isinstance(e[1].targets[0], ast.Name) \
+                    and isinstance(e[1].value, ast.Call) and res_.call_canon(e[1].value) == FN + ".difference":
+                rec[e[1].targets[0].id] = i
+            elif e[0] == "cond":
+                for t in truth_tests(e[1]):
+                    name = t.id if isinstance(t, ast.Name) else None
+                    direct = isinstance(t, ast.Call) and res_.call_canon(t) == FN + ".difference"
+                    if (name in rec and rec[name] < i) or direct:
+                        if id(t) in seen:
+                            continue
+                        n += 1
+                        lits = [(A.norm_src(x), pol) for x, pol in P.Path(p.ev[:i]).literals()]
+                        ok = ("level == 1", False) in lits or ("level != 1", True) in lits or any(
+                            s_ in ("level > 1", "level >= 2") and pol for s_, pol in lits)
+                        if ok:
+                            continue
+                        seen.add(id(t))
+                        ctx.violation("C07-j", t, "difference decides by the emptiness of the recursive result `%s` on a path [%s] that has "
+                                      "not excluded level == 1: there the recursion (level 0) hands d1[key] back as it is, and an empty "
+                                      "d1[key] that differs from d2[key] -- difference({'a': {}}, {'a': {'a': 0}}, level=1) -- is dropped "
+                                      "although at that depth it is not contained in d2 (intersection drops it too, so the item is in "
+                                      "neither part and d1 cannot be reconstructed)" % (A.src(t), P.Path(p.ev[:i]).describe(4)),
+                                      construct="emptiness-of-depth-exit", path=P.Path(p.ev[:i + 1]))
+    ctx.instances_floor("C07-j", n, 1, "emptiness tests on a recursive difference")
+    if not seen:
+        ctx.ok("C07-j", fn, "the recursive difference is tested for emptiness only where level != 1")
+
+
 def check_opaque_value(ctx):
     fn = ctx.tree.func(FN, "str_to_dict")
     params = A.func_params(fn)
@@ -516,6 +563,7 @@ def check(ctx):
     check_no_hidden_state(ctx)
     check_contained_first(ctx)
     check_opaque_value(ctx)
+    check_depth_exit(ctx)
     check_truthy(ctx)
     check_depth(ctx)
     check_fresh(ctx)
@@ -531,8 +579,8 @@ VARIANTS = [
     M("difference-level-kept", "lena/context/functions.py", "                res = difference(d1[key], d2[key], level-1)", "                res = difference(d1[key], d2[key], level)", ["C07-f"]),
     M("intersection-level-dropped", "lena/context/functions.py", "                        res[key] = intersection(res[key], d[key], level=level-1)", "                        res[key] = intersection(res[key], d[key])", ["C07-f"]),
     V("mutant", "revert-fix-difference-truthy", None, None, None, ["C07-a"], edits=[
-        ("lena/context/functions.py", "            if isinstance(d1[key], dict) and isinstance(d2[key], dict):\n                res = difference(d1[key], d2[key], level-1)",
-         "            if True:\n                res = difference(d1[key], d2[key], level-1)", 0)]),
+        ("lena/context/functions.py", "            if (level != 1 and isinstance(d1[key], dict)\n                and isinstance(d2[key], dict)):\n                res = difference(d1[key], d2[key], level-1)",
+         "            if level != 1:\n                res = difference(d1[key], d2[key], level-1)", 0)]),
     M("intersection-shallow", "lena/context/functions.py", "    res = copy.deepcopy(dicts[0])", "    res = copy.copy(dicts[0])", ["C07-b"]),
     M("intersection-stores-arg", "lena/context/functions.py", "                        res[key] = intersection(res[key], d[key], level=level-1)",
       "                        res[key] = d[key]", ["C07-b"]),
@@ -544,6 +592,7 @@ VARIANTS = [
     M("update-nested-loses-old", "lena/context/functions.py", "        other_most_nested[key] = d[key]\n", "        pass\n", ["C07-d"]),
     M("difference-get-none", "lena/context/functions.py", "        if key not in d2:\n            result[key] = d1[key]",
       "        if d2.get(key) is None:\n            result[key] = d1[key]", ["C07-a"]),
+    M("revert-fix-difference-level-1", "lena/context/functions.py", "            if (level != 1 and isinstance(d1[key], dict)\n                and isinstance(d2[key], dict)):", "            if (isinstance(d1[key], dict)\n                and isinstance(d2[key], dict)):", ["C07-j"]),
     M("difference-depth-exit-first", "lena/context/functions.py", "    if d1 == d2:\n        return {}\n    elif level == 0:\n        return d1",
       "    if level == 0:\n        return d1\n    elif d1 == d2:\n        return {}", ["C07-h"]),
     M("str-to-dict-filters-after-value", "lena/context/functions.py", "        parts.append(value)\n", "        parts.append(value)\n    parts = [part for part in parts if part != \"\"]\n", ["C07-i"]),
